@@ -183,7 +183,8 @@ def project(prop, rst, entries):
         return [e for e in entries if e['t'] in ('var', 'opt')], [(h, b) for h, b in blocks if h.startswith('.. data::')]
     if prop == 'C11':
         ents = [e for e in entries if e['t'] in ('cttest', 'section', 'ctest')]
-        keep = ('CMakeTest test definition', 'CMakeTest section definition', 'CTest test definition')
+        # both the full wording and the neutralised form (`.. warning:: <CMakeTest section>`) name the kind
+        keep = ('CMakeTest test', 'CMakeTest section', 'CTest test')
         return [(e['t'], e['name'], e.get('ef'), e.get('params') if e['t'] == 'ctest' else None) for e in ents], \
                [(h, [l for l in b if '.. warning::' in l]) for h, b in blocks if any(k in l for l in b for k in keep)]
     return entries, rst
